@@ -453,6 +453,16 @@ class Fold(ast.NodeTransformer):
                 if f.id == 'list':
                     return self.hit(self.visit(ast.ListComp(elt=elt, generators=gen)), node)
                 return self.hit(ast.Call(func=f, args=[self.visit(ast.GeneratorExp(elt=elt, generators=gen))], keywords=[]), node)
+            if f.id == 'zip' and len(node.args) >= 2 and not node.keywords and 'zip' not in self.shadowed \
+                    and all(isinstance(a, (ast.Tuple, ast.List)) and not any(isinstance(x, ast.Starred) for x in a.elts) and all(_pure(x) for x in a.elts) for a in node.args):
+                # zip((a, b), (c, d)) -> ((a, c), (b, d)): the pairs written out (iterating it is the same sequence of tuples)
+                k = min(len(a.elts) for a in node.args)
+                rows = [ast.Tuple(elts=[copy.deepcopy(a.elts[i]) for a in node.args], ctx=ast.Load()) for i in range(k)]
+                return self.hit(ast.Tuple(elts=rows, ctx=ast.Load()), node)
+            if f.id == 'enumerate' and len(node.args) == 1 and not node.keywords and 'enumerate' not in self.shadowed and isinstance(node.args[0], (ast.Tuple, ast.List)) \
+                    and node.args[0].elts and not any(isinstance(x, ast.Starred) for x in node.args[0].elts) and all(_pure(x) for x in node.args[0].elts):
+                rows = [ast.Tuple(elts=[ast.Constant(value=i), x], ctx=ast.Load()) for i, x in enumerate(node.args[0].elts)]
+                return self.hit(ast.Tuple(elts=rows, ctx=ast.Load()), node)
             if f.id == 'filter' and len(node.args) == 2 and not node.keywords and isinstance(node.args[0], (ast.Lambda, ast.Name, ast.Attribute, ast.Constant)) and 'filter' not in self.shadowed:
                 self.counter += 1
                 v = 'f%d__v' % self.counter
@@ -474,6 +484,12 @@ class Fold(ast.NodeTransformer):
                 tgt = ast.Name(id=vs[0], ctx=ast.Store()) if len(vs) == 1 else ast.Tuple(elts=[ast.Name(id=x, ctx=ast.Store()) for x in vs], ctx=ast.Store())
                 elt = ast.Call(func=node.args[0], args=[ast.Name(id=x, ctx=ast.Load()) for x in vs], keywords=[])
                 return self.hit(self.visit(ast.GeneratorExp(elt=elt, generators=[ast.comprehension(target=tgt, iter=it, ifs=[], is_async=0)])), node)
+            if f.id in ('max', 'min') and len(node.args) == 1 and not node.keywords and f.id not in self.shadowed and isinstance(node.args[0], (ast.GeneratorExp, ast.ListComp, ast.SetComp)) \
+                    and len(node.args[0].generators) == 1 and not node.args[0].generators[0].ifs and isinstance(node.args[0].generators[0].iter, (ast.Tuple, ast.List)) \
+                    and node.args[0].generators[0].iter.elts and _boolish(node.args[0].elt):
+                # the largest of some booleans is True iff any of them is; the smallest iff all are
+                a0 = node.args[0]
+                return self.hit(self.visit(ast.Call(func=ast.Name(id='any' if f.id == 'max' else 'all', ctx=ast.Load()), args=[ast.GeneratorExp(elt=a0.elt, generators=a0.generators)], keywords=[])), node)
             if f.id in ('any', 'all') and len(node.args) == 1 and not node.keywords and isinstance(node.args[0], (ast.GeneratorExp, ast.ListComp, ast.Tuple, ast.List)):
                 a0 = node.args[0]
                 from .normalize import UnrollComp
@@ -714,6 +730,20 @@ class Fold(ast.NodeTransformer):
 
     def visit_Compare(self, node):
         self.generic_visit(node)
+        # True in {bool(x) for x in xs}  ->  any(bool(x) for x in xs) ;  False in [..]  ->  not all(..)         (collections of booleans)
+        if len(node.ops) == 1 and isinstance(node.ops[0], (ast.In, ast.NotIn)) and isinstance(node.left, ast.Constant) and isinstance(node.left.value, bool):
+            c = node.comparators[0]
+            gen = None
+            if isinstance(c, (ast.SetComp, ast.ListComp, ast.GeneratorExp)) and _boolish(c.elt):
+                gen = ast.GeneratorExp(elt=c.elt, generators=c.generators)
+            elif isinstance(c, (ast.Set, ast.Tuple, ast.List)) and c.elts and all(_boolish(e) for e in c.elts):
+                gen = ast.Tuple(elts=list(c.elts), ctx=ast.Load())
+            if gen is not None and not (isinstance(c, (ast.ListComp, ast.SetComp)) and False):
+                call = ast.Call(func=ast.Name(id='any' if node.left.value else 'all', ctx=ast.Load()), args=[gen], keywords=[])
+                e = call if node.left.value else ast.UnaryOp(op=ast.Not(), operand=call)
+                if isinstance(node.ops[0], ast.NotIn):
+                    e = ast.UnaryOp(op=ast.Not(), operand=e)
+                return self.hit(self.visit(e), node)
         if len(node.ops) == 1:
             a, b = _const_key(node.left), _const_key(node.comparators[0])
             op = node.ops[0]
@@ -2935,6 +2965,18 @@ def _for_over_genexp(fn):
                     continue
                 vnames = {y.id for y in ast.walk(g.target) if isinstance(y, ast.Name)}
                 inside = {id(y) for y in ast.walk(st.iter)}
+
+                def shape(e):
+                    return ast.dump(e).replace('Store()', 'Load()')
+                if shape(st.iter.elt) == shape(g.target) == shape(st.target) and not any(isinstance(y, ast.Name) and y.id in vnames and isinstance(y.ctx, ast.Store) for b in st.body for y in ast.walk(b)):
+                    # for i, o in ((i, o) for i, o in X if C): BODY   ->   for i, o in X: if C: BODY        (same names inside and outside: nothing to rename)
+                    body = st.body
+                    if g.ifs:
+                        test = g.ifs[0] if len(g.ifs) == 1 else ast.BoolOp(op=ast.And(), values=list(g.ifs))
+                        body = [ast.If(test=test, body=body, orelse=[])]
+                    blk[i] = ast.copy_location(ast.For(target=st.target, iter=g.iter, body=body, orelse=[]), st)
+                    ast.fix_missing_locations(fn)
+                    return True
                 if any(isinstance(y, ast.Name) and y.id in vnames and id(y) not in inside for y in ast.walk(fn)):
                     continue            # the comprehension variable would collide with a name of the function
                 if any(isinstance(y, (ast.Break,)) for b in st.body for y in ast.walk(b)) and g.ifs and False:
